@@ -25,6 +25,9 @@ func checkC08(r *Report, p *Program) {
 	r09_4(r, p)
 	r09_10(r, p)
 	objectMapContracts(r, p, "R08.4")
+	r07_tables(r, p)
+	r09_tables(r, p, "R08.6")
+	r09_recordSet(r, p, "R08.7")
 }
 
 // ---- key domains ----
